@@ -12,6 +12,7 @@ from ..bits import matcher_layout, charge_bounds
 from ..r_hygiene import rule_hygiene as _rule_hygiene
 from ..r_query import rule_isotope_setter as _rule_iso_setter
 from ..r_round8 import rule_class_cache_reads_no_instance_state as _r8_cc
+from ..r_round9 import rule_strip_charset as _r9_strip
 
 LEVEL = 'proof'
 PACK = 'chython/containers/_pack_v2.pyx'
@@ -303,6 +304,7 @@ def run(ck, repo):
     _rule_hygiene(ck, repo, 'C18.H-dataflow-hygiene', 'C18')
     _rule_iso_setter(ck, repo, 'C18.3-isotope-setter')
     _r8_cc(ck, repo, 'C18.D5-class-cache-scope')
+    _r9_strip(ck, repo, 'C18.D6-strip-charset')
 
 
 def first_diff(a, b):
